@@ -51,4 +51,5 @@ def main(tier):
     chk.run("R-INTERMEDIATE", RG.intermediate, r, floor=2)
     chk.run("R-RENDERCONST", RG.renderconst, r, floor=30)
     chk.run("R-INTRANGE", RG.intrange, r, parts=('backend',), floor=4)
+    chk.run("R-SUBWINDOW", WN.subwindow, cx.cpp, floor=2)
     return chk.finish()
